@@ -331,6 +331,22 @@ def envOk {V : Type} (sem : Sem V) (row : OptRow) (e : Option V) : Bool :=
 def valid {V : Type} (sem : Sem V) (row : OptRow) (s : Simple V) : Bool :=
   cliOk sem row s.cli && envOk sem row s.env && fileOk sem row s.prof && fileOk sem row s.dflt
 
+/-! ## which type functions are meant to do the same thing (command line vs. file / environment) -/
+
+/-- documented equivalences: `-c` / `concurrent`, `-p` / `password` / `REPLICAT_PASSWORD`, `-K` / `key-file`, … -/
+def equivTy : OptTy → OptTy → Bool
+  | .parseRepository, .parseRepository => true
+  | .path, .path => true
+  | .naturalNumberCli, .naturalNumberCfg => true
+  | .fsencode, .strEncode => true
+  | .fsencode, .environb => true
+  | .readBytesCli, .readBytesCfg => true
+  | .guessType, .guessType => true
+  | _, _ => false
+
+/-- flags that the documentation declares exclusive although they set different options -/
+def documentedExclusive : List (String × String) := [("--shared", "--clone")]
+
 /-! ## two flags on one command line (possibly of two different options, e.g. `--shared --clone`) -/
 
 /-- argparse's verdict on a command line containing the flags `a` and `b` (any order) -/
